@@ -6,3 +6,15 @@
 pub fn no_growth(_this: &mut bytes::BytesMut, _additional: usize, _allocate: bool) -> bool {
     panic!("BytesMut growth not expected: harness pre-reserves");
 }
+
+/// "Every `Bytes` in this query is static": the non-static vtable entries of the `bytes`
+/// crate become unreachability stubs.  CBMC resolves the manual vtable's function pointers
+/// by signature, so every drop / clone of a `Bytes` (inside `HeaderValue`, `HeaderName`,
+/// `BytesStr`, `proto::Error`) otherwise inlines the promotable / shared / owned
+/// implementations at every site of the drop glue.
+pub unsafe fn bytes_drop_unreachable(_data: *mut (), _ptr: *const u8, _len: usize) {
+    panic!("UNREACHABLE-STUB a non-static Bytes was dropped");
+}
+pub unsafe fn bytes_clone_unreachable(_data: &core::sync::atomic::AtomicPtr<()>, _ptr: *const u8, _len: usize) -> bytes::Bytes {
+    panic!("UNREACHABLE-STUB a non-static Bytes was cloned");
+}
